@@ -123,13 +123,13 @@ Section Container.
     end.
 
   (** ---- the Writer ---- *)
-  Record wstate := mkW { out : bytes; buf : bytes; cnt : Z }.
+  (* out: the underlying stream; buf/cnt: pending block buffer and its record count; sint: this Writer's sync_interval *)
+  Record wstate := mkW { out : bytes; buf : bytes; cnt : Z; sint : Z }.
 
   Variable sync : bytes.
-  Variable sync_interval : Z.
 
   Definition dump (st : wstate) : wstate :=
-    mkW (out st ++ block_bytes sync (cnt st) (buf st)) [] 0.
+    mkW (out st ++ block_bytes sync (cnt st) (buf st)) [] 0 (sint st).
 
   Definition pending (st : wstate) : bool := negb (len (buf st) =? 0) || (0 <? cnt st).
 
@@ -140,22 +140,22 @@ Section Container.
   | OWriteBad                  (* a record that does not fit the schema: write raises *)
   | OFlush
   | OBlock (ls : list lval)    (* write_block: a donor block holding these records in any valid layout *)
-  | OReopen.                   (* flush, then a new Writer on the same stream in append mode (header re-read) *)
+  | OReopen (si : Z).          (* flush, then a new Writer (with its own sync_interval) on the same stream in append mode *)
 
   Definition wstep (st : wstate) (o : wop) : wstate :=
     match o with
     | OWrite a =>
-        let st' := mkW (out st) (buf st ++ wire a) (cnt st + 1) in
-        if sync_interval <=? len (buf st') then dump st' else st'
+        let st' := mkW (out st) (buf st ++ wire a) (cnt st + 1) (sint st) in
+        if sint st <=? len (buf st') then dump st' else st'
     | OWriteBad => st                                   (* the pending buffer is restored: nothing is contributed *)
     | OFlush => flush st
     | OBlock ls =>
         let st' := flush st in
-        mkW (out st' ++ block_bytes sync (len ls) (flat_map wire_l ls)) [] 0
-    | OReopen => flush st                               (* same marker, codec and schema: they come from the header *)
+        mkW (out st' ++ block_bytes sync (len ls) (flat_map wire_l ls)) [] 0 (sint st)
+    | OReopen si => let st' := flush st in mkW (out st') (buf st') (cnt st') si   (* same marker, codec and schema: they come from the header *)
     end.
 
-  Definition wcreate (meta : list (bytes * bytes)) : wstate := mkW (header_bytes meta sync) [] 0.
+  Definition wcreate (meta : list (bytes * bytes)) (si : Z) : wstate := mkW (header_bytes meta sync) [] 0 si.
 
   (* what has been successfully submitted *)
   Definition submitted_of (o : wop) : list aval :=
